@@ -6,7 +6,10 @@ package server
 // harness issues every command through it, with the argument structs the CLI fills in, so the
 // plumbing between a command's arguments and the router is part of what every check exercises.
 
-import "time"
+import (
+	"sync"
+	"time"
+)
 
 func vfDeploy(r *Router, svc string, targets []string, so ServiceOptions, to TargetOptions, deployTimeout, drainTimeout time.Duration) error {
 	var reply bool
@@ -53,4 +56,19 @@ func vfList(r *Router) ServiceDescriptionMap {
 	var reply ListResponse
 	NewCommandHandler(r).List(true, &reply)
 	return reply.Targets
+}
+
+// The harness remembers where each router keeps its state file instead of reading the router's own field.
+var vfRouterPaths sync.Map
+
+func vfNewRouter(statePath string) *Router {
+	r := NewRouter(statePath)
+	vfRouterPaths.Store(r, statePath)
+	return r
+}
+
+func vfPathOf(r *Router) string {
+	p, _ := vfRouterPaths.Load(r)
+	s, _ := p.(string)
+	return s
 }
